@@ -35,8 +35,8 @@ LEVEL_NOTE = (
     "Trusted: the POSIX model (models/posixtz.py, cross-checked against glibc "
     "in every run) and glibc itself; rule domain as the property restricts it "
     "(start and end at least a month apart and away from the year boundary; "
-    "names of 3-5 letters; times 0-24 h). tzrange is only built for rules it "
-    "can express (rule times inside [0, 24 h) in standard time).")
+    "names of 3-5 letters; times 0-24 h, which in standard time may fall "
+    "outside the day: the equivalent tzrange is built for those too).")
 TECHNIQUE = ("deterministic simulation of process-TZ configuration histories "
              "(real tzset); three-way oracle: POSIX model, glibc, dateutil")
 RULE = ("one evaluation = one generated history of TZ settings, zone "
@@ -243,8 +243,6 @@ class Env(object):
         if kind == "tzrange":
             if not spec.get("dst"):
                 return tz.tzrange(spec["std"], spec["stdoff"])
-            if not PX.rule_times_in_day(spec):
-                return None
             sav = spec["dstoff"] - spec["stdoff"]
             return tz.tzrange(spec["std"], spec["stdoff"], spec["dst"],
                               spec["dstoff"],
